@@ -1,2 +1,167 @@
-Require Import NV.C08.Model.
-Theorem C08_stub : True. Proof. exact I. Qed.
+(* C08 -- property theorems only.  Each is closed by [exact] of a lemma from Proofs*.v. *)
+From Coq Require Import List Arith Bool Lia ZArith QArith Qcanon Permutation Sorting.Sorted.
+Import ListNotations.
+Require Import NV.C08.Model NV.C08.ProofsLM NV.C08.ProofsRG NV.C08.ProofsVol NV.C08.ProofsPS NV.C08.ProofsHC.
+Open Scope nat_scope.
+
+(* ---- LMSpace: for all lmax >= mmax ------------------------------------------------------------- *)
+(* the blocks written by get_k_length_array fill exactly `size` cells *)
+Theorem C08_lm_size : forall lmax mmax, mmax <= lmax ->
+  length (lm_klengths lmax mmax) = lm_size lmax mmax.
+Proof. exact lm_length. Qed.
+
+(* l occurs 1 + 2*min(l, mmax) times (m = 0 once, every 1 <= m <= min(l,mmax) twice), nothing else occurs *)
+Theorem C08_lm_multiplicity : forall lmax mmax k, mmax <= lmax ->
+  count_occ Nat.eq_dec (lm_klengths lmax mmax) k = if k <=? lmax then 1 + 2 * Nat.min k mmax else 0.
+Proof. exact lm_count. Qed.
+
+(* the k-length table and get_unique_k_lengths have the same values *)
+Theorem C08_lm_unique : forall lmax mmax k, mmax <= lmax ->
+  (In k (lm_klengths lmax mmax) <-> In k (lm_unique lmax)).
+Proof. exact lm_values. Qed.
+
+(* ---- RGSpace integer tables: every dimension, all axis lengths >= 1 ---------------------------- *)
+(* {min(j, n-j) : j < n} = {0..n/2}: the 1-D table and arange(n//2+1) have the same values *)
+Theorem C08_rg_klengths_1d : forall n, 1 <= n -> same_set (rg_k1 n) (rg_unique1 n).
+Proof. exact axis_vals. Qed.
+
+(* equal distances: the squared k-length table sum_i min(j_i, n_i-j_i)^2 and the output of the
+   sum-of-squares sieve have the same values, the sieve never indexes outside its boolean array,
+   and its output is strictly increasing (sorted, duplicate-free) *)
+Theorem C08_rg_klengths : forall shape, Forall (fun n => 1 <= n) shape ->
+  same_set (rg_ksq shape) (rg_unique_sq shape) /\
+  (forall v, In v (sieve_vals shape) -> v < sieve_len shape) /\
+  StronglySorted lt (rg_unique_sq shape).
+Proof.
+  intros shape H. split; [exact (rg_tables_agree shape H)|].
+  split; [exact (sieve_in_range shape)|exact (unique_sq_sorted shape)].
+Qed.
+
+(* natural binning on the integer tables: pixel i lies in the bin of ITS unique length, and every
+   unique length has a pixel (no empty bin) *)
+Theorem C08_rg_natural_bins : forall shape, Forall (fun n => 1 <= n) shape ->
+  (forall i, i < length (rg_ksq shape) ->
+     nth i (rg_natural_pindex shape) 0 < length (rg_unique_sq shape) /\
+     nth (nth i (rg_natural_pindex shape) 0) (rg_unique_sq shape) 0 = nth i (rg_ksq shape) 0) /\
+  (forall b, b < length (rg_unique_sq shape) ->
+     exists i, i < length (rg_ksq shape) /\ nth i (rg_natural_pindex shape) 0 = b).
+Proof.
+  intros shape H. split.
+  - intros i Hi. exact (natural_pindex_spec shape i H Hi).
+  - intros b Hb. exact (natural_bins_nonempty shape b H Hb).
+Qed.
+
+(* ---- RGSpace distances and volumes (exact rationals) ------------------------------------------- *)
+(* for every well-formed grid (axis lengths >= 1, non-zero distances): harmonic/position distances
+   satisfy n_i * d_i * d'_i = 1, size * dvol * dvol' = 1, total volume = size*dvol = prod(extents) *)
+Theorem C08_rg_volumes : forall s, rg_ok s ->
+  (forall i, i < length (rg_shape s) ->
+     (qn (nth i (rg_shape s) 0%nat) * nth i (rg_distances s) 0%Qc * nth i (rg_distances (rg_codomain s)) 0%Qc = 1)%Qc) /\
+  (qn (rg_size s) * rg_dvol s * rg_dvol (rg_codomain s) = 1)%Qc /\
+  rg_total_volume s = qprod (rg_extents s).
+Proof.
+  intros s H. split; [intros i Hi; exact (rg_ndd s i H Hi)|].
+  split; [exact (rg_volume_product s H)|exact (rg_total_is_extents s H)].
+Qed.
+
+Theorem C08_rg_codomain_involution : forall s,
+  rg_codomain (rg_codomain s) = s /\ (rg_ok s -> rg_ok (rg_codomain s)).
+Proof. intros s. split; [exact (codomain_involutive s)|exact (codomain_ok s)]. Qed.
+
+(* the constructor: a grid reports the distances it was built with (position and harmonic), is
+   well-formed, and the default distances are 1/n resp. 1 *)
+Theorem C08_rg_constructor : forall sh ds h,
+  length ds = length sh -> Forall (fun n => 1 <= n) sh -> Forall (fun r => r <> 0%Qc) ds ->
+  rg_distances (rg_make sh (Some ds) h) = ds /\ rg_ok (rg_make sh (Some ds) h).
+Proof.
+  intros sh ds h L Hn Hd. split; [exact (rg_make_distances sh ds h L Hn Hd)|exact (rg_make_ok sh ds h L Hn Hd)].
+Qed.
+
+Theorem C08_rg_default_distances : forall sh h, Forall (fun n => 1 <= n) sh ->
+  rg_distances (rg_make sh None h) = if h then repeat 1%Qc (length sh) else map (fun n => (1 / qn n)%Qc) sh.
+Proof. exact rg_make_default. Qed.
+
+(* ---- PowerSpace: any k-length list, any bounds -------------------------------------------------- *)
+(* numpy's searchsorted contract (left): bounds[j] < k for j < i and k <= bounds[i] *)
+Theorem C08_searchsorted : forall bounds k,
+  searchsorted bounds k <= length bounds /\
+  (forall j, j < searchsorted bounds k -> (nth j bounds 0 < k)%Q) /\
+  (searchsorted bounds k < length bounds -> (k <= nth (searchsorted bounds k) bounds 0)%Q).
+Proof.
+  intros bounds k. split; [exact (searchsorted_le bounds k)|exact (searchsorted_spec bounds k)].
+Qed.
+
+(* partition: every pixel has exactly one bin index, it is < nbin; rho_b counts the pixels of bin b;
+   the bin sizes add up to the partner's size; dvol_b = rho_b * pdvol; the bin volumes add up to
+   the partner's total volume size * pdvol *)
+Theorem C08_power_partition : forall bounds ks pdvol,
+  Forall (fun i => i < ps_nbin bounds) (pindex_of bounds ks) /\
+  length (pindex_of bounds ks) = length ks /\
+  (forall b, nth b (ps_rho bounds ks) 0 = count_eq b (pindex_of bounds ks)) /\
+  list_sum (ps_rho bounds ks) = length ks /\
+  (forall b, b < ps_nbin bounds ->
+     nth b (ps_dvol bounds ks pdvol) 0%Q = (qofn (nth b (ps_rho bounds ks) 0%nat) * pdvol)%Q) /\
+  (qsum (ps_dvol bounds ks pdvol) == qofn (length ks) * pdvol)%Q.
+Proof.
+  intros bounds ks pdvol. split; [exact (pindex_in_range bounds ks)|].
+  split; [unfold pindex_of; apply map_length|].
+  split; [exact (rho_counts bounds ks)|]. split; [exact (rho_total bounds ks)|].
+  split; [intros b Hb; exact (dvol_nth bounds ks pdvol b Hb)|exact (dvol_total bounds ks pdvol)].
+Qed.
+
+(* natural bounds = midpoints of the strictly increasing unique lengths u: a pixel whose length is
+   one of the unique lengths is in bin b iff its length is the b-th one; hence the summed k-lengths
+   of bin b are rho_b * u_b (the bin's k-length, sum/rho, is u_b) *)
+Theorem C08_power_natural : forall u, StronglySorted Qlt u ->
+  length (mids u) = length u - 1 /\
+  (forall k b, b < length u -> (exists b', b' < length u /\ (k == nth b' u 0)%Q) ->
+     (searchsorted (mids u) k = b <-> (k == nth b u 0)%Q)) /\
+  (forall ks b, b < length u ->
+     (forall k, In k ks -> exists b', b' < length u /\ (k == nth b' u 0)%Q) ->
+     (nth b (ps_ksum (mids u) ks) 0 == qofn (nth b (ps_rho (mids u) ks) 0%nat) * nth b u 0)%Q).
+Proof.
+  intros u Hs. split; [exact (mids_length u)|]. split.
+  - intros k b Hb Hin. exact (natural_bin_iff u k b Hs Hb Hin).
+  - intros ks b Hb Hin. exact (natural_ksum u ks b Hs Hb Hin).
+Qed.
+
+(* ---- canonical identity -------------------------------------------------------------------------- *)
+(* For every description type D, key type K with decidable equality, canonicalisation canon, every
+   well-formed starting cache (whatever was made before) and EVERY history of
+   make(description) / make(existing object) / pickle round trip: two results are the identical
+   object iff their canonicalised descriptions are equal. *)
+Theorem C08_canonical :
+  forall (D K : Type) (canon : D -> K) (keqb : K -> K -> bool),
+    (forall a b, keqb a b = true <-> a = b) ->
+    forall (s0 : hstate K) (ops : list (hop D)) o1 d1 o2 d2,
+      inv D K canon s0 [] ->
+      In (o1, d1) (run D K canon keqb ops s0 []) -> In (o2, d2) (run D K canon keqb ops s0 []) ->
+      (o1 = o2 <-> canon d1 = canon d2).
+Proof. exact canonical_from. Qed.
+
+Theorem C08_empty_cache_wellformed : forall (D K : Type) (canon : D -> K), inv D K canon (hinit K) [].
+Proof. exact inv_init. Qed.
+
+(* MultiDomain: the key (items sorted by name) is the same for two dicts iff they have the same
+   items in some order (names distinct) *)
+Theorem C08_multidomain_key : forall l1 l2, NoDup (map fst l1) ->
+  (sort_items l1 = sort_items l2 <-> Permutation l1 l2).
+Proof. exact sort_items_canonical. Qed.
+
+(* ---- sphere (partial: ducc0 geometry is an oracle) ---------------------------------------------- *)
+(* HEALPix: size * scalar_dvol = 4 pi for every value of the symbol pi and every nside >= 1 *)
+Theorem C08_sphere_volumes_partial : forall pi nside, 1 <= nside ->
+  hp_total pi nside = (qn 4 * pi)%Qc.
+Proof. exact hp_total_4pi. Qed.
+
+(* Non-vacuity *)
+Example C08_hyps_satisfiable :
+  rg_ok (rg_make [4; 3] (Some [Q2Qc (1 # 2); Q2Qc (3 # 4)]) true) /\
+  StronglySorted Qlt [0; 1 # 2; 1]%Q /\
+  rg_unique_sq [4; 3] = [0; 1; 2; 4; 5] /\
+  rg_natural_pindex [4; 3] = [0; 1; 1; 1; 2; 2; 3; 4; 4; 1; 2; 2] /\
+  lm_klengths 2 1 = [0; 1; 2; 1; 1; 2; 2].
+Proof.
+  split; [apply rg_make_ok; [reflexivity|repeat constructor|repeat constructor; discriminate]|].
+  split; [repeat constructor; reflexivity|]. repeat split; reflexivity.
+Qed.
